@@ -41,7 +41,8 @@ Definition enc_tok (t : tok) : sx :=
 
 Definition dec_kind (z : Z) : kind :=
   if z =? 0 then KParen else if z =? 1 then KList else if z =? 2 then KSet else if z =? 3 then KUnary
-  else if z =? 4 then KLambda else if z =? 5 then KCall else if z =? 6 then KCallNp else if z =? 7 then KSubscr else KMul.
+  else if z =? 4 then KLambda else if z =? 5 then KCall else if z =? 6 then KCallNp else if z =? 7 then KSubscr
+  else if z =? 8 then KMul else KLamBlock.
 
 (** 0: Ok without errors  1: errors  5: not modelled  6: out of fuel  7: panic *)
 Definition enc_out (r : out * st) : sx :=
